@@ -365,8 +365,10 @@ where
         let leader_elected_rx = node.leader_change_notifier();
         let membership_rx = node.membership_change_notifier();
 
+        let read_cfg = &node.node_config.raft.read_consistency;
         let read_handle =
-            EmbeddedReadHandle::new(sm_for_client, node.read_lease(), node.cmd_tx.clone());
+            EmbeddedReadHandle::new(sm_for_client, node.read_lease(), node.cmd_tx.clone())
+                .with_server_policy(read_cfg.default_policy.clone(), read_cfg.allow_client_override);
 
         let client = {
             let base = EmbeddedClient::new_internal(
